@@ -85,8 +85,6 @@ func specHash(lport, rport uint16) int {
 	return int(x) & 0x7FFFFFFF
 }
 
-//@ func divideAndRound
-//@   inline
 //@ func (*Gateway).BucketUpperBound
 //@   inline
 //@ func (*Gateway).Addr
@@ -98,9 +96,9 @@ func specHash(lport, rport uint16) int {
 // with the index (an induction over the gateways, carried by two loops).
 //@ func verifLemmaSums
 //@   props C40
-//@   requires specWeightsOK(g) && 0 <= a && a <= b && b <= len(g)
-//@   ensures[abs] a <= specSum(g, a) && specSum(g, a) <= a*(1<<31-1)
-//@   ensures[rel] specSum(g, a)+(b-a) <= specSum(g, b) && specSum(g, b) <= specSum(g, a)+(b-a)*(1<<31-1)
+//@   requires specWeightsOK(g)
+//@   ensures[abs] implies(0 <= a && a <= b && b <= len(g), a <= specSum(g, a) && specSum(g, a) <= a*(1<<31-1))
+//@   ensures[rel] implies(0 <= a && a <= b && b <= len(g), specSum(g, a)+(b-a) <= specSum(g, b) && specSum(g, b) <= specSum(g, a)+(b-a)*(1<<31-1))
 //@   assigns nothing
 //@   loop 1 invariant 0 <= k && k <= a && k <= specSum(g, k) && specSum(g, k) <= k*(1<<31-1)
 //@   loop 1 decreases a - k
@@ -108,6 +106,9 @@ func specHash(lport, rport uint16) int {
 //@   loop 2 decreases b - m
 
 func verifLemmaSums(g []Gateway, a, b int) {
+	if a < 0 || a > b || b > len(g) {
+		return
+	}
 	for k := 0; k < a; k++ {
 	}
 	for m := a; m < b; m++ {
@@ -119,44 +120,44 @@ func verifLemmaSums(g []Gateway, a, b int) {
 //@ func verifLemmaRoundMono
 //@   props C40
 //@   reveal specRound31
-//@   requires w1 <= w2 && w2 <= t && 1 <= t && t <= 1<<52
-//@   ensures[mono]  specRound31(w1, t) <= specRound31(w2, t)
-//@   ensures[upper] specRound31(w2, t) <= 1<<31
-//@   ensures[whole] specRound31(t, t) == 1<<31
+//@   ensures[mono]  implies(w1 <= w2 && w2 <= t && 1 <= t && t <= 1<<52, specRound31(w1, t) <= specRound31(w2, t))
+//@   ensures[upper] implies(w2 <= t && 1 <= t && t <= 1<<52, specRound31(w2, t) <= 1<<31)
+//@   ensures[whole] implies(1 <= t && t <= 1<<52, specRound31(t, t) == 1<<31)
 //@   assigns nothing
 
 func verifLemmaRoundMono(w1, w2, t uint64) {}
 
-// verifLemmaRoundExact: the code's 64-bit computation is the exact rounding
-// as long as w<<31 does not wrap.
-//@ func verifLemmaRoundExact
+// divideAndRound (the real helper) computes exactly the specification's rounding.
+//@ func divideAndRound
 //@   props C40
 //@   reveal specRound31
-//@   requires w <= t && 1 <= t && t <= 1<<32
-//@   ensures[exact] divideAndRound(w<<31, t) == specRound31(w, t)
+//@   requires v <= d && 1 <= d
+//@   ensures[exact] result == specRound31(v, d)
 //@   assigns nothing
-
-func verifLemmaRoundExact(w, t uint64) {}
 
 //@ func CalculateBucketsForGateways
 //@   props C40
 //@   requires specWeightsOK(gateways)
-//@   ensures[weights] forall(func(j int) bool { return implies(0 <= j && j < len(gateways), gateways[j].weight == old(gateways[j].weight) && gateways[j].addr == old(gateways[j].addr)) })
-//@   ensures[prop]    forall(func(j int) bool { return implies(0 <= j && j < len(gateways), gateways[j].bucketUpperBound == old(specBucket(gateways, j))) })
+//@   assigns elems(gateways).bucketUpperBound
+//@   ensures[prop]   forall(func(j int) bool { return implies(0 <= j && j < len(gateways), gateways[j].bucketUpperBound == old(specBucket(gateways, j))) })
 //@   ensures[last]    gateways[len(gateways)-1].bucketUpperBound == 1<<31-1
-//@   ensures[mono]    forall(func(j int) bool { return implies(0 <= j && j < len(gateways)-1, gateways[j].bucketUpperBound <= gateways[j+1].bucketUpperBound) })
+//@   ghost jm int
+//@   ensures[mono]    implies(0 <= jm && jm < len(gateways)-1, gateways[jm].bucketUpperBound <= gateways[jm+1].bucketUpperBound)
+//@   lemma[old] verifLemmaSums(gateways, jm+1, jm+2)
+//@   lemma[old] verifLemmaSums(gateways, jm+2, len(gateways))
+//@   lemma verifLemmaRoundMono(uint64(old(specSum(gateways, jm+1))), uint64(old(specSum(gateways, jm+2))), uint64(old(specSum(gateways, len(gateways)))))
 //@   ensures[lower]   forall(func(j int) bool { return implies(0 <= j && j < len(gateways), -1 <= gateways[j].bucketUpperBound && gateways[j].bucketUpperBound <= 1<<31-1) })
 //@   lemma[old] verifLemmaSums(gateways, len(gateways), len(gateways))
 //@   lemma verifLemmaRoundMono(uint64(old(specSum(gateways, len(gateways)))), uint64(old(specSum(gateways, len(gateways)))), uint64(old(specSum(gateways, len(gateways)))))
 //@   loop 1 invariant[sum] 0 <= i && i <= len(gateways) && totalWeight == specSum(gateways, i) && i <= totalWeight && totalWeight <= i*(1<<31-1)
-//@   loop 2 lemma[old] verifLemmaSums(gateways, max(i-1, 0), i)
+//@   loop 2 lemma[old] verifLemmaSums(gateways, i-1, i)
 //@   loop 2 lemma[old] verifLemmaSums(gateways, i, len(gateways))
-//@   loop 2 lemma verifLemmaRoundMono(uint64(old(specSum(gateways, max(i-1, 0)))), uint64(old(specSum(gateways, i))), uint64(old(specSum(gateways, len(gateways)))))
-//@   loop 2 lemma verifLemmaRoundExact(uint64(old(specSum(gateways, i))), uint64(old(specSum(gateways, len(gateways)))))
+//@   loop 2 lemma verifLemmaRoundMono(uint64(old(specSum(gateways, i-1))), uint64(old(specSum(gateways, i))), uint64(old(specSum(gateways, len(gateways)))))
 //@   loop 2 invariant[sum] 0 <= i && i <= len(gateways) && loopWeight == old(specSum(gateways, i)) && totalWeight == old(specSum(gateways, len(gateways))) && 1 <= totalWeight
-//@   loop 2 invariant[weights] forall(func(j int) bool { return implies(0 <= j && j < len(gateways), gateways[j].weight == old(gateways[j].weight) && gateways[j].addr == old(gateways[j].addr)) })
+//@   loop 2 assigns elems(gateways).bucketUpperBound
+//@   loop 2 lemma[old] verifLemmaSums(gateways, i+1, len(gateways))
 //@   loop 2 invariant[prop]    forall(func(j int) bool { return implies(0 <= j && j < i, gateways[j].bucketUpperBound == old(specBucket(gateways, j))) })
-//@   loop 2 invariant[mono]    forall(func(j int) bool { return implies(0 <= j && j < i-1, gateways[j].bucketUpperBound <= gateways[j+1].bucketUpperBound) })
+//@   loop 2 invariant[lastb]   implies(i >= 1, gateways[i-1].bucketUpperBound == old(specBucket(gateways, i-1)))
 //@   loop 2 invariant[lower]   forall(func(j int) bool { return implies(0 <= j && j < i, -1 <= gateways[j].bucketUpperBound && gateways[j].bucketUpperBound <= 1<<31-1) })
 
 //@ func hashPacket
